@@ -20,6 +20,7 @@ def run(spec, acc, ctx, mode):
     short = gen.SHORT[scheme]
     rng = ctx.rng
     objects = {}
+    gen.MIXED_ID_SIZES = True
     key_by_shape = {}
     for cid, cfg, cls, db, info in sse.iter_cases(spec, ctx):
         shadow = copy.deepcopy(db)
